@@ -1,4 +1,5 @@
 """C14 — key containers (SEC1, WIF, PEM) round-trip; only well-formed input accepted."""
+import base64
 from hypothesis import strategies as st
 
 from vf import gen
@@ -207,6 +208,35 @@ def check_pem(case):
         parts = seq(dec, 2)
         ok = not raised(dec) and len(parts) == 2 and all(isinstance(x, (bytes, bytearray)) for x in parts) and int.from_bytes(parts[0], "big") == d and ec.sec1_decode(parts[1]) == pt
         f.expect(ok, "pem/openssl-private-read-differently", repr(dec)[:160])
+    elif mode in ("openssl-priv-compressed", "openssl-pub-compressed"):
+        # what `openssl ec -conv_form compressed` writes: the same structures with the public point in compressed form
+        pk = ec.sec1_encode(pt, True)
+        if mode == "openssl-priv-compressed":
+            body = b"\x02\x01\x01" + b"\x04\x20" + key + b"\xa0\x07\x06\x05\x2b\x81\x04\x00\x0a" + b"\xa1\x24\x03\x22\x00" + pk
+            label = b"EC PRIVATE KEY"
+        else:
+            body = b"\x30\x10\x06\x07\x2a\x86\x48\xce\x3d\x02\x01\x06\x05\x2b\x81\x04\x00\x0a" + b"\x03\x22\x00" + pk
+            label = b"PUBLIC KEY"
+        der = b"\x30" + bytes([len(body)]) + body
+        b64 = base64.b64encode(der)
+        pem = b"-----BEGIN " + label + b"-----\n" + b"\n".join(b64[i : i + 64] for i in range(0, len(b64), 64)) + b"\n-----END " + label + b"-----\n"
+        if HAVE_OPENSSL:
+            # the hand-built document is what a standard implementation reads as this key (harness self-check)
+            if mode == "openssl-priv-compressed":
+                nums = cser.load_pem_private_key(pem, password=None).private_numbers()
+                assert nums.private_value == d and (nums.public_numbers.x, nums.public_numbers.y) == pt
+            else:
+                nums = cser.load_pem_public_key(pem).public_numbers()
+                assert (nums.x, nums.y) == pt
+        dec = attempt(pem_decode_key, pem)
+        if mode == "openssl-priv-compressed":
+            parts = seq(dec, 2)
+            ok = not raised(dec) and len(parts) == 2 and all(isinstance(x, (bytes, bytearray)) for x in parts) and int.from_bytes(parts[0], "big") == d and ec.sec1_decode(parts[1]) == pt
+            f.expect(ok, "pem/openssl-private-read-differently/compressed-point", repr(dec)[:160])
+        else:
+            parts = seq(dec, 1)
+            ok = not raised(dec) and isinstance(parts[0], (bytes, bytearray)) and ec.sec1_decode(parts[0]) == pt
+            f.expect(ok, "pem/openssl-public-read-differently/compressed-point", repr(dec)[:160])
     elif mode == "openssl-pub" and HAVE_OPENSSL:
         k = cec.derive_private_key(d, cec.SECP256K1()).public_key()
         pem = k.public_bytes(cser.Encoding.PEM, cser.PublicFormat.SubjectPublicKeyInfo)
@@ -319,13 +349,13 @@ def wif_cases(draw):
 
 @st.composite
 def pem_cases(draw):
-    return {"d": draw(st.one_of(gen.scalars_valid(), st.integers(1, 255))), "mode": draw(st.sampled_from(["priv", "pub-c", "pub-u", "openssl-priv", "openssl-pub"])),
+    return {"d": draw(st.one_of(gen.scalars_valid(), st.integers(1, 255))), "mode": draw(st.sampled_from(["priv", "pub-c", "pub-u", "openssl-priv", "openssl-pub", "openssl-priv-compressed", "openssl-pub-compressed"])),
             "end": draw(st.sampled_from([False, False, True]))}
 
 
 def enum_pem_corpus(tier):
     for d in (1, 2, 255, 256, 2**200, N - 1, N // 2):
-        for mode in ("priv", "pub-c", "pub-u", "openssl-priv", "openssl-pub"):
+        for mode in ("priv", "pub-c", "pub-u", "openssl-priv", "openssl-pub", "openssl-priv-compressed", "openssl-pub-compressed"):
             yield {"d": d, "mode": mode}
 
 
@@ -337,7 +367,7 @@ def _targets(tier):
         Target("wif", check_wif, strategy=lambda tier: wif_cases(), budget={"quick": 3000, "thorough": 60000},
                required=["nt:key-31-leading-zero-bytes", "nt:suffix", "nt:wif-unknown-version", "nt:wif-mutated", "nt:bad-key-len", "nt:bad-key-range"]),
         Target("pem", check_pem, strategy=lambda tier: pem_cases(), budget={"quick": 320, "thorough": 6000},
-               required=["nt:pem-priv", "nt:pem-openssl-priv", "nt:pem-openssl-pub", "nt:key-leading-zeros", "nt:pem-der-ends-in-whitespace-or-nul"] if HAVE_OPENSSL else ["nt:pem-priv", "nt:pem-der-ends-in-whitespace-or-nul"]),
+               required=["nt:pem-priv", "nt:pem-openssl-priv", "nt:pem-openssl-pub", "nt:pem-openssl-priv-compressed", "nt:pem-openssl-pub-compressed", "nt:key-leading-zeros", "nt:pem-der-ends-in-whitespace-or-nul"] if HAVE_OPENSSL else ["nt:pem-priv", "nt:pem-der-ends-in-whitespace-or-nul"]),
         Target("pem-fixed", check_pem, enumerate_=enum_pem_corpus, shards=4),
     ]
 
